@@ -207,3 +207,16 @@ reg("C12", "c12",
     "once, sorted by the requested key and direction.",
     "ASCII case folding only; bleve full-text evaluation excluded (C11); TLC and the harness projection trusted.",
     "DESIGN.md section 4, C12")
+
+reg("C08", "c08",
+    "TLA+ spec Sig.tla (KeysAt, Accept) enumerated by TLC; every vector executed with real OpenPGP keys across two replicas",
+    "TLC enumerates every identity version history (<= 2 / 3 versions adding, removing, rotating 2 keys at logical times 0..3) crossed "
+    "with commits at every logical time signed by a key in force, a removed or not-yet-valid key, a stranger's key, unsigned, or "
+    "signed and then altered, checks the clauses of the rule as theorems and prints the verdict. The harness builds each history "
+    "with real identities and OpenPGP keys (versions committed at the prescribed edit-clock values), writes the commit (git-bug's "
+    "StoreSignedCommit for signatures, go-git for the altered case), pushes it, and a second replica that knows the author only "
+    "from git must merge / read it exactly when the specification accepts, and otherwise refuse with a signature error, create "
+    "no ref and not crash.",
+    "Ideal cryptography in the model; ProtonMail/go-crypto trusted. Commits are single-commit bugs written by hand at the chosen "
+    "logical time (git-bug's own write path cannot choose a logical time below its clock).",
+    "DESIGN.md section 4, C08")
